@@ -201,6 +201,33 @@ func (nm *namer) Lisp(f *Form) string {
 	panic("Lisp: unknown form " + f.K)
 }
 
+// defun renders the definition of user function i, written inside its defining context (innermost scope first)
+func (nm *namer) defun(i int, body []*Form, dc []dscope) string {
+	s := fmt.Sprintf("(defun %s_%d ()%s)", nm.fnPrefix, i, nm.forms(body))
+	for _, e := range dc {
+		if e.Block {
+			s = "(block " + nm.blockName(e.Name) + " " + s + ")"
+		} else {
+			nm.nvar++
+			s = fmt.Sprintf("(let ((c%d %d)) %s)", nm.nvar, nm.nvar, s)
+		}
+	}
+	return s
+}
+
+// gCtx renders a defining context as a `list scope` of coq/C07/Model.v
+func gCtx(dc []dscope) string {
+	xs := make([]string, len(dc))
+	for i, e := range dc {
+		if e.Block {
+			xs[i] = fmt.Sprintf("(true, %d%%N)", e.Name)
+		} else {
+			xs[i] = "(false, 0%N)"
+		}
+	}
+	return "[" + strings.Join(xs, "; ") + "]"
+}
+
 func gForms(fs []*Form) string {
 	xs := make([]string, len(fs))
 	for i, f := range fs {
